@@ -337,7 +337,23 @@ def lookup(repo: Repo, rep):
     bad = False
     for o in rets:
         multi = none = False
+        # the returned path is an element of the *unfiltered* glob result
+        G = o.ret[1] if isinstance(o.ret, tuple) and o.ret[0] == "item" else None
+        def is_glob(g):
+            if not isinstance(g, tuple):
+                return False
+            if g[0] == "mcall" and g[2] in ("glob", "rglob") and g[3] and g[3][0] == ("param", f.params[1]):
+                return True
+            if g[0] == "call" and g[1] in ("list", "sorted", "tuple") and g[2]:
+                return is_glob(g[2][0])
+            return False
+        if G is None or not is_glob(G):
+            rep.violation("R-LOOKUP-STRICT", f, f.node, f"_lookup_path returns {short_t(o.ret)}, not an element of the complete glob result for the name: candidates are filtered before the ambiguity test, so an ambiguous prefix resolves silently", trace_str(o), construct="filtered")
+            bad = True
+            continue
         for t, v in o.p.assume:
+            if isinstance(t, tuple) and t[0] == "cmp" and isinstance(t[2], tuple) and t[2][0] == "call" and t[2][1] == "len" and t[2][2] and t[2][2][0] != G:
+                continue
             if isinstance(t, tuple) and t[0] == "cmp" and isinstance(t[2], tuple) and t[2][0] == "call" and t[2][1] == "len":
                 k = t[3][1] if t[3][0] == "const" else None
                 if (t[1] == ">" and k == 1 and v is False) or (t[1] == ">=" and k == 2 and v is False) or (t[1] == "<=" and k == 1 and v is True):
@@ -346,7 +362,7 @@ def lookup(repo: Repo, rep):
                     multi = none = True
                 if (t[1] == "==" and k == 0 and v is False) or (t[1] in (">", "!=") and k == 0 and v is True) or (t[1] == ">=" and k == 1 and v is True):
                     none = True
-            elif v is True and isinstance(t, tuple) and t[0] in ("call", "name", "mcall") and "glob" in str(t):
+            elif v is True and t == G:
                 none = True
         if not multi:
             rep.violation("R-LOOKUP-STRICT", f, f.node, "an ambiguous hash prefix (more than one match) resolves to one of the files instead of raising", trace_str(o), construct="ambiguous")
